@@ -123,6 +123,7 @@ class Baton:
         self.switch_log: list[dict] = []             # {"at": idx, "from": name, "t_phase": str, "effective": bool, "ran": int}
         self.lock_blocks: list[tuple] = []           # (thread, event index, t_phase)
         self.t_events_at_r_start: int | None = None
+        self.r_mid_request_at_t_end = False          # R had started but not finished when T finished
         self._open: dict[str, dict | None] = {"T": None, "R": None}   # switch entry of a pre-empted thread until it resumes
 
     # -- identity -------------------------------------------------------------------------------
@@ -256,6 +257,7 @@ class Baton:
             except _Abort:
                 pass
             self._finish("T")
+            self.r_mid_request_at_t_end = self.started["R"] and not self.done["R"]
             if not self.done["R"]:
                 self._go["R"].release()          # R starts, or resumes, and runs to its end
             ok = self._r_finished.acquire(timeout=self.WAIT_S * 2)
